@@ -14,7 +14,7 @@ SPEC = dict(
     trusted_base=['Print Assumptions: FloatAxioms.Leibniz.eqb_spec (stdlib axiom, used to lift the computed exactness of float64(max)-float64(min) on 0..255) and the kernel float/int63 primitives; no other axiom', 'hand-written model Model/Controller.v of calculateTargetPwm / ensureNoThirdPartyIsMessingWithUs / trySetManualPwm / setPwm / measureRpm, Model/Fan.v, Model/ControlLoop.v: agreement with the Go code is observed bit-exactly on the generated histories (driver ctrl), not proved', 'one control cycle is atomic in the model; interference during a cycle is represented by interference just before or just after it', 'the curve is a stub SpeedCurve in the driver (real curves: C06/C07); the PID clock is virtual (overlay rewrite of time.Now in util/pid.go)', 'gen/Consts.v regenerated from the source: clamp bounds, rescale divisor, stall threshold, post-raise average'],
     partial='C04_pid_settles_full is not proved (global convergence of a rounded nonlinear recurrence): the PID clause is exploration only — 6 (quick) / 40 (thorough) long constant-curve runs through the real controller judged by the observer rule |request - steady| <= 1 after 450 cycles (dt >= 0.5 s) or 3100 cycles (dt >= 50 ms); a single tick period of hours (suspend/resume) winds the unbounded PID integral up and is outside the stated quantifier (tick periods 50 ms..2 s).',
     finding_codes={}, finding_text={},
-    level_text='C04_envelope: for every fan kind and limits, every non-empty key-sorted PWM map, every control algorithm (incl. an arbitrary function of target/current), every initial device state and every finite history of polls, cycles (any curve value, dt, faults) and interference, the model never crashes, every request lies in [min,max] and every value handed to the fan is the map output at a nearest supported input (hence in 0..255 for maps with such outputs). Proved by an invariant over histories plus the exhaustive rescale lemmas on 0..255^3. The verified observer judges the same statement on the real controller for 600 (quick) / 12000 (thorough) generated histories and the model is compared bit-exactly.',
+    level_text='C04_shape (steady value = minimum at curve 0, maximum at 255, monotone, inside the limits), C04_direct (one cycle from any state reaches the steady value, independent of history, elapsed time and faults), C04_limited_run + C04_limited_requests (with maxPwmChangePerCycle = c >= 1 the requests change by at most c per cycle, move monotonically toward the same steady value and equal it from cycle ceil(255/c) on, a bound depending on c alone) are proved for every limit setting, curve value, start value and prior history on fans whose stall branch cannot fire. The PID clause (within one step of the steady value) is NOT proved: C04_pid_settles_full stays a visible Definition and is explored by simulation on the real controller (default gains, tick periods 0.5..2 s quick / 50 ms..2 s thorough, one hour of idling at 0 or 255 first).',
     level_note='trusted: Coq kernel + FloatAxioms.Leibniz.eqb_spec; hand-written controller model tied to the code by the differential ctrl driver (bit-exact agreement observed, not proved); atomic cycles',
     design_ref='DESIGN.md section 5 C04',
 )
